@@ -42,6 +42,9 @@ class PolicyModel:
             if isinstance(n, ast.Assign) and is_self_attr(n.targets[0], '_attribute_rule_sets'):
                 table = n.value
         if not isinstance(table, ast.Dict):
+            from .astutil import find_dict_literal
+            table = find_dict_literal(self.cls, table, fn=init) if table is not None else None      # built once by a helper and shared / copied / wrapped read-only
+        if not isinstance(table, ast.Dict):
             raise AnalysisError('unrecognised construct: AttributePolicy._attribute_rule_sets is not a dict literal')
         self.rules = {}
         self.rule_nodes = {}
